@@ -21,7 +21,7 @@ fn main() {
         let wmax: u64 = if w == 8 { u64::MAX } else { u32::MAX as u64 };
         let nwords = [4usize, 8, 16, 48, 170][rng.gen_range(0..5)];
         let top = rng.gen_bool(0.1);
-        let stack_base: u64 = if top { (wmax - (nwords * w) as u64 + 1) & !(w as u64 - 1) } else if rng.gen_bool(0.1) { 0x1000 } else { 0x10000 + 0x1000 * rng.gen_range(0..4u64) };
+        let stack_base: u64 = if an == "mips" && rng.gen_bool(0.2) { 0x8001_0000 } else if top { (wmax - (nwords * w) as u64 + 1) & !(w as u64 - 1) } else if rng.gen_bool(0.1) { 0x1000 } else { 0x10000 + 0x1000 * rng.gen_range(0..4u64) };
         // modules: a few, sometimes adjacent, sometimes at the top
         let mut modules: Vec<(String, u64, u32)> = vec![("m1".into(), 0x400000, 0x1000), ("m2".into(), 0x500000, 0x1000)];
         if rng.gen_bool(0.3) { modules.push(("m3".into(), 0x401000, 0x1000)); }
@@ -38,6 +38,8 @@ fn main() {
         let fp_choices = [stack_base, stack_base.wrapping_add((w * 2) as u64) & wmax, 0, wmax, wmax - 8, sp, rng.gen::<u64>() & wmax, stack_base.wrapping_add(((nwords - 2) * w) as u64) & wmax];
         let fp = fp_choices[rng.gen_range(0..fp_choices.len())];
         let ip = [0x400150u64, 0x400350, 0x500010, 12345, 0, wmax, 0x400100, 0x4001ff][rng.gen_range(0..8)];
+        // 32-bit MIPS keeps its registers in 64-bit slots: kernel-segment addresses arrive sign-extended
+        let (sp, fp) = if an == "mips" && stack_base >= 0x8000_0000 && rng.gen_bool(0.5) { (sp | 0xffff_ffff_0000_0000, fp | 0xffff_ffff_0000_0000) } else { (sp, fp) };
         let mut regs = vec![(spec.ip.to_string(), ip), (spec.sp.to_string(), sp), (spec.fp.to_string(), fp)];
         if matches!(an, "arm64" | "arm64old" | "arm") { regs.push(("lr".into(), [0x400160u64, 0, wmax, 0x500020][rng.gen_range(0..4)])); }
         if an == "mips" { regs.push(("ra".into(), [0x400160u64, 0, 0x500020][rng.gen_range(0..3)])); }
